@@ -34,6 +34,7 @@ func (db *DB) promoteRecord(rec record) (bool, error) {
 
 			// The record is in the index, write it to the current segment.
 			segmentID, offset, err := db.datalog.writeRecord(rec.data, rec.rtype) // TODO: batch writes
+			verifYield("promote.logged")
 			if err != nil {
 				return false, err
 			}
@@ -56,6 +57,7 @@ type CompactionResult struct {
 func (db *DB) compact(sourceSeg *segment) (CompactionResult, error) {
 	cr := CompactionResult{}
 
+	verifYield("compact.seal")
 	db.mu.Lock()
 	sourceSeg.meta.Full = true // Prevent writes to the compacted file.
 	db.mu.Unlock()
@@ -66,6 +68,7 @@ func (db *DB) compact(sourceSeg *segment) (CompactionResult, error) {
 	}
 	// Copy records from sourceSeg to the current segment.
 	for {
+		verifYield("compact.record")
 		err := func() error {
 			db.mu.Lock()
 			defer db.mu.Unlock()
@@ -93,6 +96,7 @@ func (db *DB) compact(sourceSeg *segment) (CompactionResult, error) {
 		}
 	}
 
+	verifYield("compact.remove")
 	db.mu.Lock()
 	defer db.mu.Unlock()
 	err = db.datalog.removeSegment(sourceSeg)
@@ -143,6 +147,7 @@ func (db *DB) Compact() (CompactionResult, error) {
 	db.mu.RLock()
 	segments := db.pickForCompaction()
 	db.mu.RUnlock()
+	verifYield("compact.picked")
 
 	for _, seg := range segments {
 		segcr, err := db.compact(seg)
